@@ -15,6 +15,8 @@ import MutagenModel.Spec.Info.OggCodecs
 import MutagenModel.Model.Info.Asf
 import MutagenModel.Spec.Info.Asf
 import MutagenModel.Model.Info.Mp4
+import MutagenModel.Model.Info.MpegInfo
+import MutagenModel.Spec.Info.Mpeg
 import MutagenModel.Spec.Info.Mp4
 import Driver.Util
 namespace Driver
@@ -210,6 +212,55 @@ def mp4Fields (a : Args) : Spec.Mp4Info.Fields :=
       | _ => .plain (a.bytes "ename") ((ibAtoms a "extra").headD (.leaf [] false [])),
     entryMore := a.bytes "entrymore", moreEntries := a.bytes "moreentries" }
 
+/-! ### MP3 -/
+
+def showOptExpr (k : String) (v : Option LExpr) : String :=
+  match v with | some e => s!"x_{k}={e.render}" | none => s!"none_{k}=1"
+
+def showMp3 (i : Mp3.Info) : String :=
+  s!"length={i.length.render} x_bitrate={i.bitrate.render} channels={i.channels} sample_rate={i.sampleRate} x_version=({i.version10}/10) layer={i.layer} mode={i.mode} protected={ibBit i.crcProtected} padding={ibBit i.padding} sketchy={ibBit i.sketchy} bitrate_mode={i.bitrateMode} s_encoder_info={hexField i.encoderInfo} s_encoder_settings={hexField i.encoderSettings} {showOptExpr "track_gain" i.trackGain} {showOptExpr "track_peak" i.trackPeak} {showOptExpr "album_gain" i.albumGain} frame_offset={i.frameOffset}"
+
+def mp3Hdr (s : String) : Spec.Mp3.Hdr :=
+  match (s.splitOn ".").map String.toNat! with
+  | [v, l, p, b, r, pad, priv, m, rest] => ⟨v, l, p, b, r, pad, priv, m, rest⟩
+  | _ => ⟨3, 1, 1, 9, 0, 0, 0, 0, 0⟩
+
+/-- tags as `major.minor.flags.bodyhex` separated by `,` -/
+def mp3Lead (a : Args) : Spec.Mp3.Lead :=
+  { tags := (if a.str "tags" "-" == "-" then [] else (a.str "tags").splitOn ",").map (fun t =>
+      match t.splitOn "." with
+      | [ma, mi, fl, b] => ⟨ma.toNat!, mi.toNat!, fl.toNat!, ibHex b⟩
+      | _ => ⟨3, 0, 0, []⟩),
+    junk := a.bytes "junk" }
+
+def mp3Frame (a : Args) (k : String) : Spec.Mp3.Frame := ⟨mp3Hdr (a.str (k ++ "h")), a.bytes (k ++ "b")⟩
+
+def mp3Cbr (a : Args) : Spec.Mp3.Cbr :=
+  { lead := mp3Lead a, f1 := mp3Frame a "f1", f2 := mp3Frame a "f2", f3 := mp3Frame a "f3", f4 := mp3Frame a "f4", trailing := a.bytes "trailing" }
+
+def mp3XingTag (a : Args) : Spec.Mp3.XingTag :=
+  { isInfo := a.nat "info" == 1, frames := ibOptNat a "frames", bytes := ibOptNat a "nbytes",
+    toc := if a.has "toc" then some (a.bytes "toc") else none, quality := ibOptNat a "quality" }
+
+def mp3Xing (a : Args) : Spec.Mp3.XingStream :=
+  { lead := mp3Lead a, hdr := mp3Hdr (a.str "hdr"), side := a.bytes "side", tag := mp3XingTag a, after := a.bytes "after" }
+
+def mp3Vbri (a : Args) : Spec.Mp3.VbriStream :=
+  { lead := mp3Lead a, hdr := mp3Hdr (a.str "hdr"), side := a.bytes "side",
+    tag := { delay := a.nat "delay", quality := a.nat "quality", bytes := a.nat "nbytes", frames := a.nat "frames", tocEntries := a.nat "tocn",
+             tocScale := a.nat "tocscale", tocEntrySize := a.nat "tocsize", tocFramesPerEntry := a.nat "tocfpe", toc := a.bytes "toc" },
+    after := a.bytes "after" }
+
+def mp3Lame (a : Args) : Spec.Mp3.LameStream :=
+  { lead := mp3Lead a, hdr := mp3Hdr (a.str "hdr"), side := a.bytes "side", tag := mp3XingTag a,
+    version := { major := a.nat "vmajor", minor := a.nat "vminor", flag := UInt8.ofNat (a.nat "vflag") },
+    ext := { vbrMethod := a.nat "method", lowpass := a.nat "lowpass", peak := a.nat "peak", trackGainType := a.nat "tgt", trackGainOrigin := a.nat "tgo",
+             trackGainSign := a.nat "tgs", trackGainAbs := a.nat "tga", albumGainType := a.nat "agt", albumGainOrigin := a.nat "ago",
+             albumGainSign := a.nat "ags", albumGainAbs := a.nat "aga", encodingFlags := a.nat "encflags", athType := a.nat "ath", bitrate := a.nat "lbitrate",
+             delay := a.nat "ldelay", padding := a.nat "lpadding", misc := a.nat "misc", mp3Gain := a.nat "mp3gain", surround := a.nat "surround",
+             preset := a.nat "preset", musicLength := a.nat "mlen", musicCrc := a.nat "mcrc", tagCrc := a.nat "tcrc" },
+    after := a.bytes "after" }
+
 def infoBOp (a : Args) : String :=
   let res {α : Type} (sh : α → String) (r : Except PyErr α) : String :=
     match r with
@@ -279,6 +330,22 @@ def infoBOp (a : Args) : String :=
   | "parse", "MP4" => res showMp4 (Mp4.parse (a.bytes "data"))
   | "build", "MP4" => s!"ok v={hexField (Spec.Mp4Info.build (mp4Fields a))}"
   | "expect", "MP4" => s!"ok {showMp4 (Spec.Mp4Info.expected (mp4Fields a))} ok=1 partial=1"
+  | "build", "MP3cbr" => s!"ok v={hexField (mp3Cbr a).build}"
+  | "expect", "MP3cbr" => s!"ok {showMp3 (mp3Cbr a).expected} ok=1 partial=1"
+  | "build", "MP3xing" => s!"ok v={hexField (mp3Xing a).build}"
+  | "expect", "MP3xing" => s!"ok {showMp3 (mp3Xing a).expected} ok=1 partial=1"
+  | "build", "MP3vbri" => s!"ok v={hexField (mp3Vbri a).build}"
+  | "expect", "MP3vbri" => s!"ok {showMp3 (mp3Vbri a).expected} ok=1 partial=1"
+  | "build", "MP3lame" => s!"ok v={hexField (mp3Lame a).build}"
+  | "expect", "MP3lame" => s!"ok {showMp3 (mp3Lame a).expected} ok=1 partial=1"
+  | "parse", "MP3lame" => res showMp3 (Mp3.parse (a.bytes "data"))
+  | "parse", "MP3cbr" => res showMp3 (Mp3.parse (a.bytes "data"))
+  | "parse", "MP3xing" => res showMp3 (Mp3.parse (a.bytes "data"))
+  | "parse", "MP3vbri" => res showMp3 (Mp3.parse (a.bytes "data"))
+  | "parse", "MP3" => res showMp3 (Mp3.parse (a.bytes "data"))
+  | "syncs", _ => s!"ok v={showNatList (Mp3.syncScan (a.bytes "data") (a.nat "pos") (a.nat "max" 1048576))}"
+  | "syncchunks", _ => s!"ok v={showNatList (Mp3.syncChunks (a.bytes "data") (a.nat "max" 1048576) ((a.bytes "data").length + 2) (a.nat "pos") 0 2 none)}"
+  | "skipid3", _ => s!"ok v={Mp3.skipId3 (a.bytes "data") ((a.bytes "data").length + 1) 0}"
   | "round53", _ => s!"ok v={Aiff.round53 (a.nat "v")}"
   | _, _ => "bad-op"
 
